@@ -94,6 +94,22 @@ def script_text(script, lang: str) -> str:
     return ''.join(out)
 
 
+HIER = ['Any', 'SerializableType', 'CompositeType', 'StructureType', 'UnionType', 'ServiceType', 'DelimitedType']
+
+
+def oracle_select(cls_name: str, stems) -> typing.Optional[str]:
+    """the property's own definition of template selection: nearest class of the MRO of the pydsdl class (taken from the
+    pydsdl importable by this process, not from the harness) whose name is a stem of the listing"""
+    import pydsdl
+    c = getattr(pydsdl, cls_name, None)
+    stems = dict(stems)
+    while c is not None and c is not object:
+        if c.__name__ in stems:
+            return stems[c.__name__]
+        c = c.__bases__[0] if c.__bases__ else None
+    return None
+
+
 def alone_oracle(text: str, pps) -> str:
     if not pps:
         return text
@@ -224,12 +240,13 @@ def run_history(job: dict) -> dict:
     p = core.run([core.PY, HARNESS], input=json.dumps(doc), env=core.repo_env({'PYTHONHASHSEED': str(job.get('hashseed', 0))}),
                  timeout=900)
     try:
-        out = json.loads(p.stdout[p.stdout.index('{"out"'):])['out']
+        doc2 = json.loads(p.stdout[p.stdout.index('{"out"'):])
+        out, forest = doc2['out'], doc2.get('forest', {})
     except Exception:
-        out = [{'err': 'harness failure: ' + p.stdout[-600:]}] * len(job['steps'])
+        out, forest = [{'err': 'harness failure: ' + p.stdout[-600:]}] * len(job['steps']), {}
     import shutil
     shutil.rmtree(work, ignore_errors=True)
-    return {'job': job, 'out': out}
+    return {'job': job, 'out': out, 'forest': forest}
 
 
 def run_histories(jobs: typing.List[dict]) -> typing.List[dict]:
@@ -241,10 +258,14 @@ def run_histories(jobs: typing.List[dict]) -> typing.List[dict]:
 # running the model
 # ---------------------------------------------------------------------------------------------------------------
 def model_request(deps: typing.Dict[str, typing.List[str]], tables: typing.Dict[typing.Tuple[int, str], list], lang_of_cfg,
-                  ops: typing.List[tuple], resets: bool, lel_shared: bool) -> str:
+                  ops: typing.List[tuple], resets: bool, lel_shared: bool, forest: typing.Dict[str, typing.List[str]],
+                  cls_of: typing.Dict[str, str], markers: bool) -> str:
     lines = []
+    ids = {n: i for i, n in enumerate(sorted(forest))}
+    for n in sorted(forest):
+        lines.append('K %d %s %s' % (ids[n], enc(n), ','.join(str(ids[b]) for b in forest[n]) or '-'))
     for k, ds in deps.items():
-        lines.append('U %s e %s' % (enc(k), enc_list(ds)))
+        lines.append('U %s %d e %s' % (enc(k), ids.get(cls_of.get(k, ''), 0), enc_list(ds)))
     for (cf, k), script in tables.items():
         key, pre, suf = UNIQ_ARGS[lang_of_cfg[cf]]
         items = []
@@ -256,12 +277,12 @@ def model_request(deps: typing.Dict[str, typing.List[str]], tables: typing.Dict[
         lines.append(' '.join(['T', str(cf), enc(k)] + items))
     for o in ops:
         if o[0] == 'new':
-            lines.append('N %d %s %s' % (o[1], enc_pps(o[2]), enc_list(o[3])))
+            lines.append('N %d %s %s %s' % (o[1], ','.join('%s=%s' % (enc(a), enc(b)) for a, b in o[4]) or '-', enc_pps(o[2]), enc_list(o[3])))
         elif o[0] == 'run':
             lines.append('R %d %s' % (o[1], enc_list(o[2])))
         else:
             lines.append('C')
-    lines.append('X %d %d -' % (resets, lel_shared))
+    lines.append('X %d %d - %d' % (resets, lel_shared, markers))
     return '\n'.join(lines) + '\n'
 
 
@@ -273,9 +294,10 @@ def run_model(exe: str, requests: typing.List[str]) -> typing.List[typing.Option
     bad = False
     for l in p.stdout.splitlines():
         t = l.split(' ')
-        if t[0] == 'E' and len(t) == 5:
+        if t[0] == 'E' and len(t) == 6:
             try:
-                cur.append({'cfg': int(t[1]), 'key': dec(t[2]), 'clean': t[3] == '1', 'text': dec(t[4])})
+                cur.append({'cfg': int(t[1]), 'key': dec(t[2]), 'clean': t[3] == '1', 'text': dec(t[4]),
+                            'tmpl': None if t[5] == '-' else dec(t[5])})
             except ValueError:
                 bad = True
         elif t[0] == 'S':
@@ -304,6 +326,7 @@ class Hist:
         self.gens: typing.List[dict] = []          # per generator: cfg id, lang, subset (list of tids), step index
         self.cfgs: typing.Dict[int, dict] = {}       # cfg id -> {'lang','lang_opts','templates','scripts'}
         self.hashseed = 0
+        self.markers = kind == 'script'
 
     def new(self, cfg: int, subset=None, pps=None) -> int:
         c = self.cfgs[cfg]
@@ -323,8 +346,24 @@ class Hist:
                 'hashseed': self.hashseed, 'name': self.name}
 
 
-def script_templates(sp: Space, scripts: typing.Dict[str, list], lang: str, const_args: bool = False) -> typing.Dict[str, str]:
-    """one user template for every structure type: an if/elif chain over the type's name and version"""
+def gen_template_set(rng) -> typing.List[str]:
+    """a random set of template names taken from several levels of the pydsdl class hierarchy such that every composite type
+    finds a template (a generic one, or all four specific ones)"""
+    names = [n for n in HIER if rng.random() < 0.45]
+    if not (set(names) & {'Any', 'SerializableType', 'CompositeType'}):
+        if rng.random() < 0.6:
+            names.append(rng.choice(['Any', 'SerializableType', 'CompositeType']))
+        else:
+            names = sorted(set(names) | {'StructureType', 'UnionType', 'ServiceType', 'DelimitedType'})
+    rng.shuffle(names)
+    return names
+
+
+def script_templates(sp: Space, scripts: typing.Dict[str, list], lang: str, const_args: bool = False,
+                     names: typing.Sequence[str] = ('StructureType', 'UnionType', 'ServiceType', 'DelimitedType'),
+                     marker: bool = True) -> typing.Dict[str, str]:
+    """user templates named after the given pydsdl classes: each starts with a marker naming the file, then an if/elif chain
+    over the type's name and version"""
     parts = []
     for i, tid in enumerate(sp.order):
         full, major, minor = tid.rsplit('.', 2)
@@ -339,7 +378,9 @@ def script_templates(sp: Space, scripts: typing.Dict[str, list], lang: str, cons
                 body.append('{{ T.full_name }}')
         parts.append('{%% %s %s %%}%s' % ('if' if i == 0 else 'elif', cond, ''.join(body)))
     text = ''.join(parts) + '{% endif %}'
-    return {'StructureType.j2': text, 'UnionType.j2': text, 'Namespace.j2': ''}
+    out = {n + '.j2': ('<%s.j2>' % n if marker else '') + text for n in names}
+    out['Namespace.j2'] = ''
+    return out
 
 
 TEXT_ALPHABET = ['a', 'b', 'x1', ' ', '  ', '\t', '\n', '\n', '\n', '\n\n', ';']
@@ -380,11 +421,22 @@ def script_space(rng) -> Space:
     sp = Space('nsy')
     n = rng.randrange(2, 6)
     for i in range(n):
-        deps = sorted({rng.choice(sp.order) for _ in range(rng.randrange(0, 3))}) if sp.order else []
-        body = ''.join('%s d%d\n' % (d, j) for j, d in enumerate(deps)) + 'uint8 x\n@sealed\n'
-        if rng.random() < 0.25:
-            body = '@union\n' + body + 'uint16 y\n'
-        sp.add('', 'T%d' % i, body, deps)
+        cands = [t for t in sp.order if 'service' not in getattr(sp, 'kinds', {}).get(t, '')]
+        deps = sorted({rng.choice(cands) for _ in range(rng.randrange(0, 3))}) if cands else []
+        fields = ''.join('%s d%d\n' % (d, j) for j, d in enumerate(deps)) + 'uint8 x\n'
+        kind = rng.choice(['struct', 'struct', 'union', 'union', 'service', 'delimited', 'delimited_union'])
+        if kind == 'struct':
+            body = fields + '@sealed\n'
+        elif kind == 'union':
+            body = '@union\n' + fields + 'uint16 y\n@sealed\n'
+        elif kind == 'service':
+            body = fields + '@sealed\n---\nuint8 r\n@extent 64\n'
+        elif kind == 'delimited':
+            body = fields + '@extent %d\n' % (4096 * 4 ** i)
+        else:
+            body = '@union\n' + fields + 'uint16 y\n@extent %d\n' % (4096 * 4 ** i)
+        sp.kinds = getattr(sp, 'kinds', {})
+        sp.kinds[sp.add('', 'T%d' % i, body, deps)] = kind
     return sp
 
 
@@ -396,7 +448,7 @@ def gen_script_history(rng, idx: int) -> Hist:
     for c in range(ncfg):
         lang = rng.choice(LANGS) if idx % 3 else rng.choice(['c', 'cpp'])
         scripts = {t: gen_script(rng, t) for t in sp.order}
-        h.cfgs[c + 1] = {'lang': lang, 'templates': script_templates(sp, scripts, lang),
+        h.cfgs[c + 1] = {'lang': lang, 'templates': script_templates(sp, scripts, lang, names=gen_template_set(rng)),
                          'scripts': {t: concrete_script(s, t) for t, s in scripts.items()}}
     for _ in range(rng.randrange(1, 4)):
         cfg = rng.randrange(1, ncfg + 1)
@@ -421,7 +473,8 @@ def witness_history() -> Hist:
     b = sp.add('', 'B', 'uint8 y\n@sealed\n', [])
     scripts = {a: [['t', 'a\n\n']], b: [['t', '\nb']]}
     h = Hist('witness', sp, 'script')
-    h.cfgs[1] = {'lang': 'c', 'templates': script_templates(sp, scripts, 'c'), 'scripts': scripts}
+    h.markers = False
+    h.cfgs[1] = {'lang': 'c', 'templates': script_templates(sp, scripts, 'c', marker=False), 'scripts': scripts}
     g0 = h.new(1)            # whole namespace: A then B
     h.run(g0)
     g1 = h.new(1, [b])       # the subset {B}
@@ -513,14 +566,16 @@ def line_up(h: Hist, out: typing.List[dict]) -> typing.Tuple[typing.List[dict], 
             g['pps'] = r['pps']
             if any(p[0] == 'other' for p in r['pps']):
                 errs.append('unexpected post-processor %r' % (r['pps'],))
-            ops.append(('new', g['cfg'], r['pps'], g['subset']))
+            g['tset'] = [tuple(x) for x in r.get('tset', [])]
+            ops.append(('new', g['cfg'], r['pps'], g['subset'], g['tset']))
         elif st['op'] == 'run':
             gid = st['gid']
             g = h.gens[gid]
             ops.append(('run', gid, r['order']))
             for k in r['order']:
                 entries.append({'gid': gid, 'cfg': g['cfg'], 'key': k, 'text': r['files'][k], 'pps': g['pps'],
-                                'chunks': (r.get('chunks') or {}).get(k)})
+                                'chunks': (r.get('chunks') or {}).get(k), 'tmpl': (r.get('tmpl') or {}).get(k),
+                                'cls': (r.get('cls') or {}).get(k), 'tset': g['tset']})
         else:
             ops.append(('clear',))
     return entries, ops, errs
@@ -604,7 +659,7 @@ def main(chk: core.Check, replay: typing.Optional[str] = None) -> int:
     stats = {'histories': len(hists), 'script_histories': 0, 'builtin_histories': 0, 'files': 0, 'files_by_lang': {},
              'model_vs_impl_compared': 0, 'oracle_vs_impl_compared': 0, 'known_finding_instances': 0,
              'unclean_boundaries_in_model': 0, 'second_or_later_file_of_a_process': 0, 'files_using_unique_names': 0,
-             'builtin_histories_solid': 0, 'harness_errors': 0, 'subset_generators': 0, 'permuted_runs': 0}
+             'builtin_histories_solid': 0, 'harness_errors': 0, 'files_by_class': {}, 'template_of_an_ancestor_class': 0, 'subset_generators': 0, 'permuted_runs': 0}
     distinct = set()
     bad_oracle: typing.List[dict] = []
     bad_model: typing.List[dict] = []
@@ -623,6 +678,11 @@ def main(chk: core.Check, replay: typing.Optional[str] = None) -> int:
                     k = (lang, e['cfg'], e['key'])
                     if fresh or k not in builtin_chunks:
                         builtin_chunks[k] = e['chunks']
+    r_forest = {id(h): r.get('forest', {}) for h, r in zip(hists, results)}
+    for f in r_forest.values():
+        if any(len(b) > 1 for b in f.values()):
+            broken.append('pydsdl class graph is not a forest any more: hypothesis of C10_file_indep_partial / C10_template_selection_indep')
+            break
     for h, (entries, ops, errs) in zip(hists, lined):
         lang_of_cfg = {c: v['lang'] for c, v in h.cfgs.items()}
         tables = {}
@@ -634,7 +694,9 @@ def main(chk: core.Check, replay: typing.Optional[str] = None) -> int:
                     ch = builtin_chunks.get((v['lang'], c, t))
                     if ch is not None:
                         tables[(c, t)] = [['t', skel(''.join(ch))]]
-        requests.append(model_request(h.sp.deps, tables, lang_of_cfg, ops, resets_fact, lel_shared))
+        cls_of = {e['key']: e['cls'] for e in entries if e.get('cls')}
+        requests.append(model_request(h.sp.deps, tables, lang_of_cfg, ops, resets_fact, lel_shared, r_forest[id(h)], cls_of,
+                                      h.markers))
     models = run_model(exe, requests) if ok_model else [None] * len(hists)
 
     # reference bytes for built-in templates: the file of a type generated FIRST by a new interpreter from its closure only
@@ -685,7 +747,8 @@ def main(chk: core.Check, replay: typing.Optional[str] = None) -> int:
             # --- the property oracle
             if h.kind == 'script':
                 script = h.cfgs[e['cfg']]['scripts'][e['key']]
-                expect = alone_oracle(script_text(script, lang), e['pps'])
+                sel = oracle_select(e['cls'], e['tset'])
+                expect = alone_oracle(('<%s>' % (sel or '') if h.markers else '') + script_text(script, lang), e['pps'])
                 uses_uniq = any(it[0] == 'u' for it in script)
             else:
                 k = (lang, e['cfg'], e['key'])
@@ -694,6 +757,18 @@ def main(chk: core.Check, replay: typing.Optional[str] = None) -> int:
                 expect = alone_builtin[k][0]
                 uses_uniq = False
             stats['files_using_unique_names'] += uses_uniq
+            # --- template selection: function of (class, listing) only
+            sel = oracle_select(e['cls'], e['tset'])
+            stats['files_by_class'][e['cls']] = stats['files_by_class'].get(e['cls'], 0) + 1
+            if sel is not None and e['cls'] + '.j2' != os.path.basename(sel):
+                stats['template_of_an_ancestor_class'] += 1
+            if e['tmpl'] != (os.path.basename(sel) if sel else None):
+                bad_oracle.append({'history': h.name, 'file_index': i, 'type': e['key'], 'lang': lang, 'class': e['cls'],
+                                   'listing': sorted(x[0] for x in e['tset']), 'expected_template': sel, 'got_template': e['tmpl'],
+                                   'what': 'template selected for the type is not the nearest one of its class chain', 'job': h.job()})
+            if me is not None and (os.path.basename(me['tmpl']) if me['tmpl'] else None) != e['tmpl']:
+                bad_model.append({'history': h.name, 'file_index': i, 'type': e['key'], 'model_template': me['tmpl'],
+                                  'implementation_template': e['tmpl'], 'job': h.job()})
             stats['oracle_vs_impl_compared'] += 1
             if i > 0 and (h.kind == 'builtin' or uses_uniq or trigger or len(h.cfgs) > 1):
                 distinct.add((h.name, i))
@@ -720,7 +795,9 @@ def main(chk: core.Check, replay: typing.Optional[str] = None) -> int:
                 'non-trivial = distinct (history, file) that is not the first file of its interpreter and either comes from '
                 'the built-in templates, or calls to_template_unique_name, or follows a file ending in an empty line under a LimitEmptyLines processor, or shares the '
                 'interpreter with a generator of another configuration. Script histories: 2..5 random structure/union types with '
-                'random dependencies, user templates written from random scripts (text with blank lines at start/end, uneven '
+                'random dependencies (structs, unions, services, delimited structs/unions), user template SETS named after random pydsdl '
+                'classes (Any/SerializableType/CompositeType/StructureType/UnionType/ServiceType/DelimitedType, each with a marker), '
+                'templates written from random scripts (text with blank lines at start/end, uneven '
                 'unique-name calls, T.full_name), 1..3 generators (random language c/cpp/py/html, explicit or default '
                 'post-processors, whole namespace or random dependency-closed subset), 1..2 generate_all per generator in '
                 'default/reversed/shuffled order, cache clearing. Built-in histories: per language one interpreter with whole '
